@@ -683,8 +683,8 @@ theorem fail_aborts (env : Env) (cfg : Cfg) (ans : Bytes) (w : Wire) (pos : Nat)
 /-- a Content-Type that was already in the header map when the handler failed, or a chain that was
     already aborted, plays no part: the response is the one `fail` writes (`http.Header.Set` replaces,
     `Abort` is idempotent) -/
-theorem earlier_content_type_replaced (pre : Option Bytes) (ab : Bool) (env : Env) (cfg : Cfg) (ans : Bytes)
-    (w : Wire) (pos : Nat) (call : Call) : failH pre ab env cfg ans w pos call = fail env cfg ans w pos call := rfl
+theorem earlier_content_type_replaced (pre : Option Bytes) (ab cd : Bool) (env : Env) (cfg : Cfg) (ans : Bytes)
+    (w : Wire) (pos : Nat) (call : Call) : failH pre ab cd env cfg ans w pos call = fail env cfg ans w pos call := rfl
 
 /-- exactly one response body is written -/
 theorem exactly_one_response (env : Env) (cfg : Cfg) (ans : Bytes) (pos : Nat) (call : Call) :
